@@ -13,7 +13,7 @@
    destructor is `reachable` too. *)
 From OlaBase Require Import Bytes.
 From Coq Require Import Sorted.
-From C12 Require Import Gen Model ProofsT ProofsA ProofsB ProofsC ProofsD ProofsR ProofsE ProofsP Proofs.
+From C12 Require Import Gen Model ProofsT ProofsA ProofsB ProofsC ProofsD ProofsR ProofsE ProofsE2 ProofsP Proofs.
 Local Open Scope N_scope.
 
 (* the constants the model and the statements below use are those of the headers *)
@@ -66,7 +66,10 @@ Print Assumptions c12_one_outstanding.
    A submission is rejected exactly when the number of accepted, uncompleted requests has reached
    the limit (h_open is the harness' own count, g_rj counts disagreements).
    And at every instant of every history no request has completed twice and the queued requests
-   completed so far did so in submission order. *)
+   completed so far did so in submission order.  Histories contain re-entrant submissions at every
+   callback point: the script of every completion callback (of an answered, rejected or destructor-
+   failed request) and of every discovery callback is an arbitrary list of operations, Submit
+   included, nested to any depth (see c12_example_reentrant). *)
 Theorem c12_once_in_order :
   (forall max discov ms ds h f,
      run_history max discov ms ds h = Some f ->
@@ -80,7 +83,7 @@ Theorem c12_once_in_order :
                | Some rs => rs_data rs = concat (map rs_data (c_parts c)) /\
                             Forall (fun p => rs_data p = [] \/ exists d, rs_data p = c_id c :: d) (c_parts c) /\ c_parts c <> [] /\
                             (Forall (fun p => rs_src p = rs_src rs /\ rs_cc p = rs_cc rs) (c_parts c) /\
-                             (forall f, hd_error (c_parts c) = Some f -> rs_pid rs = rs_pid f) /\
+                             (forall f, hd_error (c_parts c) = Some f -> rs_hdr rs = rs_hdr f) /\
                              (forall l, hd_error (rev (c_parts c)) = Some l -> rs_mc rs = rs_mc l)) /\
                             ((2 <= length (c_parts c))%nat ->
                              len (rs_data rs) <= MAX_OVERFLOW_SIZE /\ rs_type rs = RDM_ACK /\
@@ -107,8 +110,8 @@ Print Assumptions c12_once_in_order.
    response has as parameter data the in-order concatenation of the parts it was built from (one
    part per answer consumed, each an answer to a dispatch of that same request; a part may be empty,
    e.g. the empty last ACK real responders send - the mock tags only non-empty data); it carries the
-   source UID and command class common to all parts, the PID of the first part and the message
-   count of the last part; a response built from two or more parts is an RDM_ACK (never
+   source UID and command class common to all parts, the PID, destination UID, transaction number and sub-device (rs_hdr) of the first part and the
+   message count of the last part; a response built from two or more parts is an RDM_ACK (never
    ACK_OVERFLOW) GET or SET response of at most MAX_OVERFLOW_SIZE (4096) bytes; a response built
    from a single answer is that answer, unchanged.  While a sequence
    is in progress the accumulator belongs to the request at the head of the queue and is the
@@ -122,7 +125,7 @@ Theorem c12_overflow : forall max discov ms ds s ag,
             | Some rs => rs_data rs = concat (map rs_data (c_parts c)) /\
                          Forall (fun p => rs_data p = [] \/ exists d, rs_data p = c_id c :: d) (c_parts c) /\ c_parts c <> [] /\
                          (Forall (fun p => rs_src p = rs_src rs /\ rs_cc p = rs_cc rs) (c_parts c) /\
-                          (forall f, hd_error (c_parts c) = Some f -> rs_pid rs = rs_pid f) /\
+                          (forall f, hd_error (c_parts c) = Some f -> rs_hdr rs = rs_hdr f) /\
                           (forall l, hd_error (rev (c_parts c)) = Some l -> rs_mc rs = rs_mc l)) /\
                          ((2 <= length (c_parts c))%nat ->
                           len (rs_data rs) <= MAX_OVERFLOW_SIZE /\ rs_type rs = RDM_ACK /\
@@ -136,7 +139,7 @@ Theorem c12_overflow : forall max discov ms ds s ag,
                 rs_data c = concat (map rs_data (g_parts s)) /\
                 Forall (fun p => rs_data p = [] \/ exists d, rs_data p = i :: d) (g_parts s) /\ g_parts s <> [] /\
                 (Forall (fun p => rs_src p = rs_src c /\ rs_cc p = rs_cc c) (g_parts s) /\
-                 (forall f, hd_error (g_parts s) = Some f -> rs_pid c = rs_pid f) /\
+                 (forall f, hd_error (g_parts s) = Some f -> rs_hdr c = rs_hdr f) /\
                  (forall l, hd_error (rev (g_parts s)) = Some l -> rs_mc c = rs_mc l)) /\
                 ((2 <= length (g_parts s))%nat ->
                  len (rs_data c) <= MAX_OVERFLOW_SIZE /\ rs_type c = RDM_ACK /\
@@ -185,18 +188,18 @@ Print Assumptions c12_paused.
 (* CombineResponses exactly: two parts combine iff their data together is at most MAX_OVERFLOW_SIZE
    (4096 itself is accepted, 4097 is not - see c12_combine_limit), their source UIDs are equal and
    both are GET responses or both are SET responses; the result is then an RDM_ACK with the first
-   part's source, class and PID, the second part's message count and the concatenated data. *)
+   part's source, class, PID, destination UID, transaction number and sub-device (rs_hdr), the second part's message count and the concatenated data. *)
 Theorem c12_combine : forall a b c,
   combine a b = Some c <->
   (len (rs_data a) + len (rs_data b) <= MAX_OVERFLOW_SIZE /\ rs_src a = rs_src b /\
    ((rs_cc a = GET_COMMAND_RESPONSE /\ rs_cc b = GET_COMMAND_RESPONSE) \/
     (rs_cc a = SET_COMMAND_RESPONSE /\ rs_cc b = SET_COMMAND_RESPONSE)) /\
-   c = mkResp RDM_ACK (rs_src a) (rs_cc a) (rs_mc b) (rs_data a ++ rs_data b) (rs_pid a)).
+   c = mkResp RDM_ACK (rs_src a) (rs_cc a) (rs_mc b) (rs_data a ++ rs_data b) (rs_hdr a)).
 Proof. exact combine_spec. Qed.
 Print Assumptions c12_combine.
 
 Example c12_combine_limit :
-  let part n := mkResp 3 1 33 0 (repeat 7 n) 100 in
+  let part n := mkResp 3 1 33 0 (repeat 7 n) (100, 2, 0, 0) in
   (exists c, combine (part 2048%nat) (part 2048%nat) = Some c /\ len (rs_data c) = 4096) /\
   combine (part 2048%nat) (part 2049%nat) = None.
 Proof. split; [eexists; split; vm_compute; reflexivity|vm_compute; reflexivity]. Qed.
@@ -267,6 +270,101 @@ Theorem c12_verdicts : forall max discov ms ds h f,
 Proof. exact history_verdicts. Qed.
 Print Assumptions c12_verdicts.
 
+(* The discovery verdict: at every quiescent configuration of every history (after any top-level
+   operation, and after destruction) dv_of = 0, i.e. no discovery request was served twice, and every
+   run that has served requests has served ALL the requests it took (requests with a callback and
+   requests with a NULL callback alike) and was full iff one of them asked for full - a request queued
+   behind a full one is not dropped.  (A request is taken by the first run started after it was queued:
+   c12_discovery_coalesce; whether a run ever completes is up to the underlying controller, and the
+   destructor does not run discovery callbacks.) *)
+Theorem c12_discovery_verdict :
+  (forall max discov ms ds s, reachable max discov ms ds s [] -> dv_of s = O) /\
+  (forall max discov ms ds s,
+     reachable max discov ms ds s [] ->
+     forall run full reqs, In (run, full, reqs) (g_runs s) ->
+       (forall q, In q reqs -> ~ In (snd q) (map fst (g_ddone s))) \/
+       (forall q, In q reqs -> In (snd q, run) (g_ddone s))).
+Proof.
+  split; [exact reach_dv|].
+  intros max discov ms ds s Hr run full reqs He.
+  pose proof (reach_E _ _ _ _ _ _ Hr) as HE. pose proof (EP_nodup_runs _ _ _ _ _ _ _ HE) as Hnr.
+  destruct (reach_Q _ _ _ _ _ _ Hr) as [_ Q8]. destruct HE as (_ & _ & _ & E4 & _).
+  cbn [logs2] in Q8. destruct (Q8 _ He) as [Hn|Ha]; [left|right]; intros q Hq.
+  - intros Hin. apply (Hn (snd q)); [unfold run_dids; cbn; apply in_map; exact Hq|].
+    unfold Dset. cbn. rewrite app_nil_r. exact Hin.
+  - assert (Hin : In (snd q) (map fst (g_ddone s))).
+    { specialize (Ha (snd q)). unfold Dset in Ha. cbn in Ha. rewrite app_nil_r in Ha. apply Ha.
+      unfold run_dids; cbn. apply in_map. exact Hq. }
+    apply in_map_iff in Hin. destruct Hin as ([d r] & Hx1 & Hx2). cbn in Hx1. subst d.
+    rewrite Forall_forall in E4. destruct (E4 _ Hx2) as (f' & reqs' & Hr' & Hd'). cbn in Hr', Hd'.
+    assert (Heq : (r, f', reqs') = (run, full, reqs)).
+    { eapply (flat_map_unique run_dids); [exact Hnr|exact Hr'|exact He| |]; unfold run_dids; cbn;
+        [exact Hd'|apply in_map; exact Hq]. }
+    inversion Heq; subst. exact Hx2.
+Qed.
+Print Assumptions c12_discovery_verdict.
+
+(* Destruction at an arbitrary point: the controller may be destroyed after ANY prefix h1 of a history
+   (whatever is in flight, queued, paused, mid-ACK_OVERFLOW or mid-discovery at that point): the run is
+   defined, every request ever submitted - before or during the destruction - then has exactly one
+   completion, nothing is left queued; and every single step the destructor takes adds no call to the
+   underlying controller, leaves its outstanding lists alone, runs no discovery callback (the code does
+   not complete pending discovery requests on destruction), and completes requests only with
+   FAILED_TO_SEND (never as an answer).  Nothing happens afterwards: no operation follows destruction
+   in any reachable configuration (R_op requires a live controller). *)
+Theorem c12_destroy_anywhere :
+  (forall max discov ms ds h1 (h2 : list op),
+     exists f, run_history max discov ms ds h1 = Some f /\
+       (forall i, count_id i (g_done f) = if i <? h_next f then 1%nat else O) /\
+       s_queue f = [] /\ h_destroying f = true) /\
+  (forall max discov ms ds s f ag s' ag',
+     reachable max discov ms ds s (f :: ag) -> h_destroying s = true -> step s f ag = (s', ag') ->
+     length (filter (fun e => match e with TSend _ | TDisc _ => true | _ => false end) (g_trace s')) =
+     length (filter (fun e => match e with TSend _ | TDisc _ => true | _ => false end) (g_trace s)) /\
+     m_out s' = m_out s /\ m_dout s' = m_dout s /\ g_ddone s' = g_ddone s /\
+     (g_done s' = g_done s \/
+      exists c, g_done s' = g_done s ++ [c] /\ c_reply c = mkReply RDM_FAILED_TO_SEND None 0 /\
+                c_kind c <> K_ANSWERED)).
+Proof.
+  split.
+  - intros max discov ms ds h1 _. destruct (destroy_after_prefix max discov ms ds h1) as (f & E & (A & _ & _ & D) & Hd).
+    exists f. auto.
+  - exact reach_dying_step.
+Qed.
+Print Assumptions c12_destroy_anywhere.
+
+(* Re-entrant submission with other requests queued: request 0 is in flight and request 1 waits behind
+   it when 0's completion callback submits 2 (whose own callback submits 4) and 3.  The head of the
+   queue (1) is sent next, not the request just submitted; everything completes once, in submission
+   order, each with its own answer; 4, still queued at the end, is failed by the destructor. *)
+Example c12_example_reentrant :
+  let ack := mkReply 0 (Some (mkResp 0 1 33 0 [7] (100, 2, 0, 0))) 1 in
+  match run_history 3 false [] []
+          [Submit false [Submit false [Submit false []]; Submit false []]; Submit false [];
+           Deliver ack; Deliver ack; Deliver ack; Deliver ack] with
+  | Some f => map (fun c => (c_id c, c_kind c,
+                             match r_resp (c_reply c) with Some r => rs_data r | None => [] end)) (g_done f) =
+              [(0, 0, [0; 7]); (1, 0, [1; 7]); (2, 0, [2; 7]); (3, 0, [3; 7]); (4, 2, [])] /\
+              g_accepted f = [0; 1; 2; 3; 4] /\ g_conc f = 1
+  | None => False
+  end.
+Proof. vm_compute. repeat split. Qed.
+
+(* Discovery requests queued while the port is busy: incremental, full (its callback asks for another
+   incremental run), incremental with a NULL callback.  One full run takes all three - the requests
+   queued after the full one are not dropped - and serves all of them; the request made from the
+   callback is served by the following, incremental run. *)
+Example c12_example_discovery :
+  let ack := mkReply 0 (Some (mkResp 0 1 33 0 [7] (100, 2, 0, 0))) 1 in
+  match run_history 2 true [] [false; false]
+          [Submit false []; Disc false false []; Disc true false [Disc false false []]; Disc false true [];
+           Deliver ack; DeliverDisc; DeliverDisc] with
+  | Some f => g_runs f = [(0, true, [(false, 0); (true, 1); (false, 2)]); (1, false, [(false, 3)])] /\
+              g_ddone f = [(0, 0); (1, 0); (2, 0); (3, 1)] /\ dv_of f = O /\ g_conc f = 1
+  | None => False
+  end.
+Proof. vm_compute. repeat split. Qed.
+
 (* Non-vacuity: a history with a re-entrant submission, an ACK_OVERFLOW chain whose first part is
    answered synchronously inside a completion callback, pause/resume around a request in flight,
    a full discovery with a callback and an incremental one with a NULL callback coalesced into one full
@@ -277,19 +375,19 @@ Print Assumptions c12_verdicts.
    both failed by the destructor too (request 5, the rejected one, was submitted with a NULL callback:
    its ignored script would have paused); one call outstanding at most, none sent while paused. *)
 Example c12_example :
-  let ack := mkReply 0 (Some (mkResp 0 1 33 0 [7] 100)) 1 in
-  let ovf := mkReply 0 (Some (mkResp 3 1 33 4 [5] 101)) 1 in
-  let last := mkReply 0 (Some (mkResp 0 1 33 9 [] 102)) 1 in   (* empty last frame of the sequence *)
+  let ack := mkReply 0 (Some (mkResp 0 1 33 0 [7] (100, 2, 0, 0))) 1 in
+  let ovf := mkReply 0 (Some (mkResp 3 1 33 4 [5] (101, 3, 7, 5))) 1 in
+  let last := mkReply 0 (Some (mkResp 0 1 33 9 [] (102, 4, 8, 6))) 1 in   (* empty last frame of the sequence *)
   match run_history 2 true [Later; Sync ovf; Later; Later] [false]
           [Submit false [Submit false []]; Pause; Resume; Deliver ack; Deliver last; Submit false []; Submit false [];
            Disc true false []; Disc false true []; Deliver ack; DeliverDisc; Submit false [Submit false [Submit false []]; Resume]; Submit true [Pause]] with
   | Some f => map (fun c => (c_id c, c_kind c,
                              match r_resp (c_reply c) with
-                             | Some r => (rs_type r, rs_mc r, rs_pid r, rs_data r) | None => (9, 0, 0, []) end))
+                             | Some r => (rs_type r, rs_mc r, rs_hdr r, rs_data r) | None => (9, 0, (0, 0, 0, 0), []) end))
                   (g_done f) =
-              [(0, 0, (0, 0, 100, [0; 7])); (1, 0, (0, 9, 101, [1; 5])); (2, 0, (0, 0, 100, [2; 7]));
-               (5, 1, (9, 0, 0, [])); (3, 2, (9, 0, 0, [])); (4, 2, (9, 0, 0, []));
-               (6, 2, (9, 0, 0, [])); (7, 2, (9, 0, 0, []))]
+              [(0, 0, (0, 0, (100, 2, 0, 0), [0; 7])); (1, 0, (0, 9, (101, 3, 7, 5), [1; 5])); (2, 0, (0, 0, (100, 2, 0, 0), [2; 7]));
+               (5, 1, (9, 0, (0, 0, 0, 0), [])); (3, 2, (9, 0, (0, 0, 0, 0), [])); (4, 2, (9, 0, (0, 0, 0, 0), []));
+               (6, 2, (9, 0, (0, 0, 0, 0), [])); (7, 2, (9, 0, (0, 0, 0, 0), []))]
               /\ g_conc f = 1 /\ g_psends f = 0 /\ g_rj f = 0 /\ dv_of f = O /\
               map (fun e => (fst (fst e), snd (fst e), map snd (snd e))) (g_runs f) = [(0, true, [0; 1])] /\
               g_ddone f = [(0, 0); (1, 0)] /\ s_nulls f = [1] /\ s_qnulls f = [5]
